@@ -23,6 +23,9 @@ def run(tier, seed):
     from ..replay import investigation_native as N
     rep.add(util.native_ob('native:transmissions-valid-and-complete', 'EoN/simulation.py:(all simulators with transmissions)', N.check_modes_agree,
                            '10 simulator configurations x 3 seeds on a 7-node graph: every sourced entry goes along an edge from a node infectious at that time to a node turning S->I then (next step for the discrete simulator), one entry per infection, time-ordered, SIR: forest'))
+    rep.add(util.native_ob('native:simple-contagion-transmissions-valid', 'EoN/simulation.py:Gillespie_simple_contagion', N.check_simple_contagion_transmissions,
+                           '7 model specifications (incl. a rule whose inducing status equals the status acted on) x directed/undirected 6-node graphs x 3 seeds: every entry goes along an edge, '
+                           'matches a status change of the target that is an induced transition for the source\'s status at that time; changes without an entry are spontaneous transitions'))
     rep.level = 'other'
     rep.explanation = ('Unbounded, event-driven SIR (fast_nonMarkov_SIR / fast_SIR): the handler appends an entry (time, source, target) exactly when the target turns S->I at that '
                        'time (postcondition, source = the source stored in the event); the global event-loop invariant (queue rule lemma) keeps: one entry per infection, entries '
